@@ -45,7 +45,7 @@ ints = [
     ('CFG_SIZE', 'sizeof(SuplaEspCfg)'), ('STATE_SIZE', 'sizeof(SuplaEspState)'),
     ('V6_SIZE', 'sizeof(SuplaEspCfg_old_v6)'), ('V5A_SIZE', 'sizeof(SuplaEspCfg_old_v5A)'), ('V5B_SIZE', 'sizeof(SuplaEspCfg_old_v5B)'),
     ('CFG_SECTOR_', 'CFG_SECTOR'), ('STATE_SECTOR_OFFSET_', 'STATE_SECTOR_OFFSET'), ('SEC_SIZE', 'SPI_FLASH_SEC_SIZE'),
-    ('FLASH_OK', 'SPI_FLASH_RESULT_OK'),
+    ('FLASH_OK', 'SPI_FLASH_RESULT_OK'), ('FLASH_ERR', 'SPI_FLASH_RESULT_ERR'), ('FLASH_TIMEOUT', 'SPI_FLASH_RESULT_TIMEOUT'),
     ('CHAR_SIGNED', '((char)-1 < 0)'), ('INT_SIZE', 'sizeof(int)'),
     ('TAG_SIZE', 'SZ(SuplaEspCfg, TAG)'), ('GUID_SIZE', 'SUPLA_GUID_SIZE'), ('AUTHKEY_SIZE', 'SUPLA_AUTHKEY_SIZE'),
     ('SERVER_SIZE', 'SERVER_MAXSIZE'), ('EMAIL_SIZE', 'SUPLA_EMAIL_MAXSIZE'), ('LOCPWD_SIZE', 'SUPLA_LOCATION_PWD_MAXSIZE'),
